@@ -187,8 +187,15 @@ class ShiftedServer(QueuedResource):
         if next_t is None:
             return None
 
+        # from_seconds truncates to whole nanoseconds: never schedule the change
+        # before the boundary itself, or the same boundary is "next" again when
+        # the event fires and the simulation stops advancing.
+        when = Instant.from_seconds(next_t)
+        while when.to_seconds() < next_t:
+            when = Instant(when.nanoseconds + 1)
+
         return Event(
-            time=Instant.from_seconds(next_t),
+            time=when,
             event_type=_SHIFT_CHANGE,
             target=self,
             daemon=True,
